@@ -347,7 +347,21 @@ theorem pinv_step {s s' : SS} {op : Op} (h : PInv s) (hs : step? s op = some s')
       simp at hs; subst hs
       refine pinv_same h ?_ rfl rfl rfl rfl
       simp [procSet, hg.2, List.append_assoc]
-    · simp at hs
+    · split at hs
+      · rename_i hg
+        simp at hs; subst hs
+        obtain ⟨_, hh⟩ := hg
+        refine pinv_same h ?_ rfl rfl rfl rfl
+        -- propd.erase q ++ (held ++ [q]) ++ inhand  ~  propd ++ held ++ inhand
+        simp only [procSet]
+        refine List.Perm.append_right _ ?_
+        have h1 : (s.propd ++ s.held).Perm ((q :: s.propd.erase q) ++ s.held) :=
+          List.Perm.append_right _ (List.perm_cons_erase hh)
+        have h2 : ((q :: s.propd.erase q) ++ s.held).Perm (s.propd.erase q ++ (s.held ++ [q])) := by
+          rw [List.cons_append, ← List.append_assoc]
+          exact (List.perm_append_singleton q (s.propd.erase q ++ s.held)).symm
+        exact (h1.trans h2).symm
+      · simp at hs
   | propagate q =>
     simp only [step?] at hs
     split at hs
